@@ -4,6 +4,7 @@ import Dashu.Proofs.Text.CapacityParse
 import Dashu.Proofs.Text.ChunksWord
 import Dashu.Proofs.Text.GrammarExtra
 import Dashu.Proofs.Text.FmtWord
+import Dashu.Proofs.Text.FmtLow
 /-
   C07 — Integer text and byte encodings round-trip and match the reference digits.
 
@@ -222,6 +223,111 @@ theorem dword_split_on_words (W r dword : Nat) (hW : 1 ≤ W) (hev : 2 ∣ W) (h
   exact dwordSplitW_eq W _ dword hW (by have := ok.rpw_ge; omega) ok.lt
     (le_trans hmax (Nat.mul_le_mul_left _ hrle)) hd
 
+-- ======================================================================= the lowest layer, on machine words
+
+/-- **`FastDivideSmall` (`num_modular::PreMulInv1by1<Word>`, multiply–shift reciprocal) is exact**:
+    for every word size, every divisor `2 ≤ d < 2^W` (`new`'s precondition `divisor > 1`) and every
+    word `a`, `new(d)` passes its `debug_assert!`s, no `Word` operation of `new` / `div_rem`
+    overflows, and `div_rem(a, d) = (a / d, a % d)` -/
+theorem fast_divide_small_exact (W d a : Nat) (hd : 2 ≤ d) (hdW : d < 2 ^ W) (ha : a < 2 ^ W) :
+    (∃ p, PreMulInv1by1.new W d = .ok p ∧ p.m < 2 ^ W ∧ p.shift < W ∧
+      p.divRem W a d = .ok (a / d, a % d)) ∧
+    fastDivRadix W d a = .ok (a / d, a % d) := by
+  obtain ⟨hnew, hm⟩ := premul_new_eq W d hd hdW
+  obtain ⟨hn1, hnW, _, _⟩ := ceilLog_bounds W d hd hdW
+  have h := fastDivRadix_eq W d a hd hdW ha
+  refine ⟨⟨_, hnew, hm, by simp only; omega, ?_⟩, h⟩
+  unfold fastDivRadix at h
+  rw [hnew] at h
+  exact h
+
+/-- **the SWAR digit → ASCII trick of `arch/*/digits.rs`, bit level, all lanes**: for every word size
+    `W = 8k`, every digit case and every chunk of `k` raw digits `< 36`, none of
+    `0x76 * ALL_ONES + word`, `word += letters * case`, `word += ALL_ONES * b'0'` overflows a `Word`,
+    `((0x76 * ALL_ONES + word) >> 7) & ALL_ONES` has lane `i` equal to `[digit i ≥ 10]`, and byte `i`
+    of the result is the ASCII character of digit `i` -/
+theorem swar_digit_chunk (W : Nat) (h8 : 8 ∣ W) (c : DigitCase) (ds : List Nat)
+    (hlen : ds.length = W / 8) (hd : ∀ d ∈ ds, d < 36) :
+    digitChunkRawToAscii W c ds = .ok (ds.map (rawToAscii c)) ∧
+    ((Dashu.Gen.swar_BIAS * allOnes W + ofDigitsLE 256 ds) >>> Dashu.Gen.swar_SHIFT) &&& allOnes W =
+      ofDigitsLE 256 (ds.map fun d => if 10 ≤ d then 1 else 0) := by
+  refine ⟨digitChunkRawToAscii_eq W h8 c ds hlen hd, ?_⟩
+  simp only [Dashu.Gen.swar_BIAS, Dashu.Gen.swar_SHIFT]
+  obtain ⟨k, rfl⟩ := h8
+  have hk : ds.length = k := by omega
+  have hones : allOnes (8 * k) = ofDigitsLE 256 (ds.map fun _ => 1) := by rw [← hk]; exact allOnes_eq ds
+  rw [hones, Nat.add_comm, Nat.mul_comm, pack_add_map_mul ds (fun _ => 1) 0x76]
+  have hb : ∀ x ∈ ds.map (fun d => d + 1 * 0x76), x < 256 := by
+    intro x hx
+    obtain ⟨d, hdm, rfl⟩ := List.mem_map.mp hx
+    have := hd d hdm; omega
+  have h := pack_shift7_and _ hb
+  simp only [List.map_map] at h
+  rw [show ((fun _ => 1) ∘ fun d => d + 1 * 0x76) = (fun _ : Nat => 1) from rfl] at h
+  rw [h]
+  congr 1
+  apply List.map_congr_left
+  intro d hdm
+  have := hd d hdm
+  simp only [Function.comp]
+  by_cases h10 : 10 ≤ d
+  · rw [if_pos h10]; omega
+  · rw [if_neg h10]; omega
+
+/-- **Tie A for the low layer**: the constants the hand-written per-byte model uses are the ones
+    regenerated from the source text on every run (`Dashu/Gen/TextLow.lean`: `DigitCase` discriminants
+    of radix.rs, `b'0'` of digits.rs, `BUFFER_LEN_MIN` of digit_writer.rs); the SWAR model and
+    `digitWriterLen` call the regenerated definitions directly -/
+theorem low_layer_constants_regenerated :
+    DigitCase.offset .noLetters = Dashu.Gen.digitcase_NoLetters ∧
+    DigitCase.offset .lower = Dashu.Gen.digitcase_Lower ∧
+    DigitCase.offset .upper = Dashu.Gen.digitcase_Upper ∧
+    (∀ c d, rawToAscii c d =
+      (if c ≠ .noLetters ∧ 10 ≤ d then d + c.offset else d) + Dashu.Gen.swar_ASCII_ZERO) ∧
+    (∀ W, digitWriterLen W = ceilDiv Dashu.Gen.digit_writer_BUFFER_LEN_MIN (W / 8) * (W / 8)) ∧
+    (∀ W, allOnes W = (2 ^ W - 1) / Dashu.Gen.swar_LANE_MAX) :=
+  ⟨rfl, rfl, rfl, fun _ _ => rfl, fun _ => rfl, fun _ => rfl⟩
+
+/-- **`DigitWriter` buffering invariant with the real `flush`**: for any sequence of `write` calls
+    carrying raw digits `< 36` and the final `flush`: `buffer_len < BUFFER_LEN` between calls,
+    `buffer_len_rounded ≤ BUFFER_LEN` (the zero fill stays inside the array), every chunk handed to
+    the SWAR routine is a full `[u8; DIGIT_CHUNK_LEN]`, and the text delivered is exactly the
+    per-byte conversion of the concatenated input, in order -/
+theorem digit_writer_swar_sound (W : Nat) (h8 : 8 ∣ W) (hW : 8 ≤ W) (c : DigitCase) (pieces : List (List Nat))
+    (hb : ∀ b ∈ pieces, ∀ d ∈ b, d < 36) :
+    digitWriterRunS W c pieces = .ok (pieces.flatten.map (rawToAscii c)) :=
+  digitWriterRunS_eq W h8 hW c pieces hb
+
+/-- the invariant itself, one `write` at a time -/
+theorem digit_writer_write_invariant (W : Nat) (h8 : 8 ∣ W) (hW : 8 ≤ W) (c : DigitCase) (buf : List Nat) (s : DW)
+    (hs : s.pending.length < digitWriterLen W) (hp : ∀ d ∈ s.pending, d < 36) (hb : ∀ d ∈ buf, d < 36) :
+    ∃ s', DW.writeS W c s buf = .ok s' ∧ s'.pending.length < digitWriterLen W ∧ (∀ d ∈ s'.pending, d < 36) ∧
+      s'.out ++ s'.pending.map (rawToAscii c) = s.out ++ s.pending.map (rawToAscii c) ++ buf.map (rawToAscii c) := by
+  obtain ⟨s', h1, h2, h3, h4⟩ := DW_writeS_spec W h8 hW c buf s hs hp hb
+  obtain ⟨s'', g1, _, g3⟩ := DW_write_spec (digitWriterLen W) (digitWriterLen_pos W hW) c buf s hs
+  rw [h2] at g1
+  cases g1
+  exact ⟨s', h1, h3, h4, g3⟩
+
+/-- **what the driver executes**: the whole formatting path with the reciprocal division by the
+    radix in `PreparedWord::new` / `get_digit`, the SWAR conversion and the buffered writer equals the
+    number-level model (hence, by `print_eq_reference`, the reference text) — every word size that is
+    a multiple of 8, every trait, every format spec, every integer -/
+theorem print_on_mirrored_low_layer (W : Nat) (h8 : 8 ∣ W) (hW : 8 ≤ W) (t : FmtTrait) (f : FmtSpec) (z : Int)
+    (hv : validRadix t.radix = true) :
+    fmtModelF W t f z = .ok (fmtModel W t f z) ∧ fmtModelF W t f z = .ok (fmtSpec t f z) := by
+  have h := fmtModelF_eq W h8 hW t f z hv
+  refine ⟨h, ?_⟩
+  have hr : 2 ≤ t.radix ∧ t.radix ≤ 36 := by simpa [validRadix] using hv
+  have h256 : (2 : Nat) ^ 8 ≤ 2 ^ W := Nat.pow_le_pow_right (by omega) hW
+  rw [h, fmtModel_eq_fmtSpec W t f z hv (by omega)]
+
+/-- the raw digits alone (no `8 ∣ W` needed): every `fast_div_radix.div_rem(word, radix)` of the
+    printers receives a word, never fails a check, and the digits are those of the number-level model -/
+theorem raw_digits_on_mirrored_division (W r n : Nat) (hev : 2 ∣ W) (hr : 2 ≤ r) (hrW : r < 2 ^ W) :
+    rawDigitsF W r n = .ok (rawDigits W r n) :=
+  rawDigitsF_eq W r n hev hr hrW
+
 -- ======================================================================= bytes and chunks
 
 /-- unsigned bytes: decoding the encoding returns the number; the encoding is minimal -/
@@ -339,5 +445,15 @@ example := parse_underscores_ignored 10 [49, 50, 51] [49, 95, 50, 95, 95, 51] (b
 example := medium_on_words 64 10 (by decide) (by decide) (by decide) [5, 7, 9] (by decide) (by unfold Norm; simp)
 example := write_chunk_on_words 64 10 (by decide) (by decide) [5, 7, 9] (by decide) (by decide)
 example := dword_split_on_words 64 10 (2 ^ 127 + 12345) (by decide) (by decide) (by decide) (by decide) (by decide)
+
+example := (fast_divide_small_exact 64 10 (2 ^ 64 - 1) (by decide) (by decide) (by decide)).2
+example := (fast_divide_small_exact 64 36 (36 ^ 12 - 1) (by decide) (by decide) (by decide)).2
+example := (fast_divide_small_exact 16 (2 ^ 16 - 1) (2 ^ 16 - 1) (by decide) (by decide) (by decide)).2
+example := swar_digit_chunk 64 (by decide) .lower [0, 9, 10, 35, 1, 11, 34, 8] (by decide) (by decide)
+example := swar_digit_chunk 32 (by decide) .upper [35, 10, 9, 0] (by decide) (by decide)
+example := digit_writer_swar_sound 64 (by decide) (by decide) .upper [[1, 2, 35], [], List.replicate 40 10, [9]] (by decide)
+example := print_on_mirrored_low_layer 64 (by decide) (by decide) (.inRadix 36) { alt := true, width := some 9 } (-(36 ^ 50 + 35))
+  (by decide)
+example := raw_digits_on_mirrored_division 64 7 (7 ^ 300) (by decide) (by decide) (by decide)
 
 end Dashu.Props.C07
